@@ -51,7 +51,6 @@ EXTRA = [
 # value-level obligations: the (unnameable) types public functions hand out
 EXTRA_VALUES = [
     ("values_iter", "v: &'static sea_query::Values", "v.iter()"),
-    ("tokenizer_iter", "t: sea_query::Tokenizer", "t.iter()"),
     ("select_to_owned", "q: &'static sea_query::SelectStatement", "q.to_owned()"),
     ("build_result", "q: &'static sea_query::SelectStatement", "q.build(sea_query::PostgresQueryBuilder)"),
     ("build_any_result", "q: &'static sea_query::InsertStatement", "q.build_any(&sea_query::MysqlQueryBuilder)"),
@@ -61,6 +60,14 @@ EXTRA_VALUES = [
     ("case_stmt", "", "sea_query::CaseStatement::new()"),
     ("returning", "", "sea_query::Query::returning().all()"),
 ]
+
+# Not "statement, expression, condition, value and identifier types" (nor builders of them):
+# backends, the SQL tokenizer, writers, error types. Listed in the evidence, not asserted.
+OUT_OF_SCOPE = {
+    "MysqlQueryBuilder", "MySqlQueryBuilder", "PostgresQueryBuilder", "SqliteQueryBuilder", "CommonSqlQueryBuilder",
+    "Tokenizer", "Token", "SqlWriterValues", "Error", "Result", "ValueTypeErr", "Oper", "Mode",
+}
+OUT_OF_SCOPE_ASSOC = {"Err", "Error"}
 
 DECL = re.compile(r"^\s*pub (struct|enum|type) ([A-Za-z_][A-Za-z0-9_]*)\s*(<[^>]*>)?")
 
@@ -211,6 +218,9 @@ def obligations(found):
     unlisted = []
     seen = set()
     for name, prefix, cfgs, rel, generics in found:
+        if name in OUT_OF_SCOPE:
+            unlisted.append("%s%s (%s): out of the property's scope (backend / tokenizer / writer / error type)" % (prefix, name, rel))
+            continue
         if generics or name in GENERIC_INSTANCES:
             insts = GENERIC_INSTANCES.get(name)
             if insts is None:
@@ -240,6 +250,9 @@ def obligations(found):
     for k, (alias, prefix, cfgs, rel) in enumerate(scan_reexports()):
         obs.append(("ob_reexport_%s_%d" % (alias, k), prefix + alias, cfgs, rel))
     for k, (label, texpr, cfgs, rel) in enumerate(scan_into_iter()):
+        ty_name = label.rsplit("_", 1)[0]
+        if label.rsplit("_", 1)[-1] in OUT_OF_SCOPE_ASSOC or ty_name in OUT_OF_SCOPE:
+            continue
         obs.append(("ob_assoc_%s_%d" % (label, k), texpr, cfgs, rel))
     return obs, unlisted
 
@@ -294,6 +307,9 @@ def generate(obs, dropped):
             lines_of[n] = fn
             out.append(b + "\n")
             n += 1
+    lines_of[n] = "ob_selftest_negative"
+    out.append("#[cfg(feature = \"selftest-negative\")] pub fn ob_selftest_negative() { assert_send_sync::<std::rc::Rc<std::cell::Cell<u8>>>(); }\n")
+    n += 1
     for name, params, expr in EXTRA_VALUES:
         fn = "ob_value_" + name
         if fn in dropped:
@@ -377,8 +393,10 @@ def run(tier):
     total_obl = 0
     total_dis = 0
     samples = []
+    all_dropped = set()
     for fs in feature_sets(tier):
         feats = ["ts"] + fs
+        dropped = set()  # a name may resolve under one feature set and not under another
         # resolve paths: drop obligations whose path does not resolve, up to 4 rounds
         for _ in range(4):
             lines_of = generate(obs, dropped)
@@ -404,15 +422,23 @@ def run(tier):
                 result["harness_errors"].append({"features": feats, "what": "unexpected errors in the obligations crate", "errors": other[:5], "stderr": stderr[-400:]})
         if not samples:
             samples = [{"obligation": f, "type": t, "cfg": c, "declared_in": o} for f, t, c, o in obs if f not in dropped][:8]
-    result["unresolved"] = sorted(dropped)
-    # vacuity self-test: without thread-safe the obligations must be rejected
+        all_dropped |= dropped
+    result["unresolved"] = sorted(all_dropped)
+    dropped = set()
+    # self-test of the mechanism, independent of sea-query: an obligation on a type that is
+    # certainly not Send + Sync (feature `selftest-negative`) must be rejected with E0277
     lines_of = generate(obs, dropped)
+    rc, msgs, _ = cargo_check(["ts", "selftest-negative"])
+    thread, _, _, _ = classify(msgs, lines_of)
+    result["selftest_negative_obligation_rejected"] = (rc != 0 and any(fn == "ob_selftest_negative" for fn, _ in thread))
+    if not result["selftest_negative_obligation_rejected"]:
+        result["harness_errors"].append({"what": "the obligation mechanism accepted a type that is not Send + Sync"})
+    # informational: today the same crate is rejected without `thread-safe` (identifiers are Rc-based
+    # there); if upstream ever makes them Send + Sync unconditionally this simply becomes false
     rc, msgs, _ = cargo_check([])
     thread, _, _, _ = classify(msgs, lines_of)
     result["selftest_without_thread_safe_rejected"] = (rc != 0 and len(thread) > 0)
     result["selftest_rejected_obligations"] = len(set(f for f, _ in thread))
-    if not result["selftest_without_thread_safe_rejected"]:
-        result["harness_errors"].append({"what": "obligations are vacuous: they compile without feature thread-safe"})
     # leave the crate in the generated state for thread-safe (what a replay recompiles)
     generate(obs, dropped)
     result["obligations_total"] = total_obl
